@@ -129,12 +129,23 @@ func join(sep string, inputs eval.Inputs) (string, error) {
 	return buf.String(), errJoin
 }
 
+// The largest result str:repeat builds: the largest string length that exists
+// on every platform. A longer result cannot exist on 32-bit platforms, and
+// elsewhere it asks the Go runtime for an allocation that makes it panic
+// ("makeslice: len out of range") or abort the process ("out of memory"), which
+// cannot be turned into an exception once strings.Repeat is running.
+const maxRepeatLen = math.MaxInt32
+
 func repeat(s string, n int) (string, error) {
 	if n < 0 {
 		return "", errs.BadValue{What: "n", Valid: "non-negative number", Actual: vals.ToString(n)}
 	}
 	if len(s) > 0 && n > math.MaxInt/len(s) {
 		return "", errs.BadValue{What: "n", Valid: "small enough not to overflow result", Actual: vals.ToString(n)}
+	}
+	if len(s)*n > maxRepeatLen {
+		return "", errs.BadValue{What: "n",
+			Valid: "small enough for the result not to exceed 2147483647 bytes", Actual: vals.ToString(n)}
 	}
 	return strings.Repeat(s, n), nil
 }
